@@ -13,6 +13,25 @@ import json, os, re, shutil, subprocess, sys, time, glob, concurrent.futures as 
 VERIF = os.path.dirname(os.path.dirname(os.path.abspath(__file__)))
 SPEC = os.path.join(VERIF, 'spec')
 HARNESS = os.path.join(VERIF, 'harness')
+# The checks decide /repo's working tree.  For testing the machinery itself (seeded changes applied in scratch
+# worktrees, several at once) VERIF_REPO names another checkout and VERIF_OUTDIR another place for evidence/replays.
+REPO = os.environ.get('VERIF_REPO', '/repo')
+OUTROOT = os.environ.get('VERIF_OUTDIR', VERIF)
+
+
+def harness_dir(sd):
+    """The harness module to build: /verif/harness (replace => /repo), or a scratch copy bound to VERIF_REPO."""
+    if REPO == '/repo':
+        shutil.copy('/repo/go.sum', os.path.join(HARNESS, 'go.sum'))
+        return HARNESS
+    d = os.path.join(sd, 'harness')
+    if not os.path.exists(d):
+        shutil.copytree(HARNESS, d)
+        gm = open(os.path.join(d, 'go.mod')).read().replace('=> /repo', '=> ' + REPO)
+        open(os.path.join(d, 'go.mod'), 'w').write(gm)
+        shutil.copy(os.path.join(REPO, 'go.sum'), os.path.join(d, 'go.sum'))
+    return d
+
 GOENV = dict(os.environ, GOFLAGS='-mod=mod', GOPROXY='off', GOSUMDB='off', GOTOOLCHAIN='local')
 NCPU = os.cpu_count() or 8
 
@@ -77,7 +96,7 @@ def model_check(sd, name, module, cfg, timeout, workers=None, extra=()):
     res = dict(name=name, module=module, cfg=cfg, states=states, transitions=trans, ok=ok, wall_s=round(time.time() - t0, 1))
     if not ok:
         tail = '\n'.join(out.splitlines()[-60:])
-        with open(os.path.join(VERIF, 'evidence', 'last-mc-failure-%s.txt' % name), 'w') as f:
+        with open(os.path.join(OUTROOT, 'evidence', 'last-mc-failure-%s.txt' % name), 'w') as f:
             f.write(out[-200000:])
         raise Inconclusive('TLC did not complete %s/%s (rc=%d): model-level counterexample or tool failure; see evidence/last-mc-failure-%s.txt\n%s'
                            % (module, cfg, rc, name, tail[-3000:]))
@@ -89,9 +108,9 @@ def model_check(sd, name, module, cfg, timeout, workers=None, extra=()):
 # harness
 
 def build_harness(sd):
-    shutil.copy('/repo/go.sum', os.path.join(HARNESS, 'go.sum'))
+    hd = harness_dir(sd)
     binp = os.path.join(sd, 'drivers.test')
-    p = subprocess.run(['go1.26.8', 'test', '-tags', 'verif', '-c', '-o', binp, './drivers/'], cwd=HARNESS, env=GOENV,
+    p = subprocess.run(['go1.26.8', 'test', '-tags', 'verif', '-c', '-o', binp, './drivers/'], cwd=hd, env=GOENV,
                        stdout=subprocess.PIPE, stderr=subprocess.STDOUT, text=True)
     if p.returncode != 0:
         # the tree under test does not build with the hooks: nothing can be decided
@@ -142,7 +161,7 @@ def validate_trace(sd, tracefile, keep, tag, timeout=900):
         and 'Model checking completed. No error has been found.' in out
     states, trans = tlc_stats(out)
     if not ok:
-        with open(os.path.join(VERIF, 'evidence', 'last-trace-failure.txt'), 'w') as f:
+        with open(os.path.join(OUTROOT, 'evidence', 'last-trace-failure.txt'), 'w') as f:
             f.write(out[-200000:])
     shutil.rmtree(wd, ignore_errors=True)
     return dict(file=tracefile, ok=ok, viols=viols, events=nlines, states=states, out_tail=out[-3000:] if not ok else '')
@@ -230,15 +249,15 @@ def is_known(prop, clause, scenario_name):
 
 # --------------------------------------------------------------------------
 def write_evidence(prop, tier, seed, level, coverage, assumptions, wall, violations):
-    os.makedirs(os.path.join(VERIF, 'evidence'), exist_ok=True)
+    os.makedirs(os.path.join(OUTROOT, 'evidence'), exist_ok=True)
     ev = dict(property_id=prop, tier=tier, seed=seed, level=level, coverage=coverage, assumptions=assumptions,
               wall_s=round(wall, 1), violations=violations)
-    with open(os.path.join(VERIF, 'evidence', prop + '.json'), 'w') as f:
+    with open(os.path.join(OUTROOT, 'evidence', prop + '.json'), 'w') as f:
         json.dump(ev, f, indent=1, default=str)
 
 
 def save_replay(prop, seed, run_meta, trace_lines, clause, line_no, note=''):
-    d = os.path.join(VERIF, 'replays', prop, '%d-%s-run%s' % (int(time.time()), seed, run_meta.get('run', 'x') if run_meta else 'x'))
+    d = os.path.join(OUTROOT, 'replays', prop, '%d-%s-run%s' % (int(time.time()), seed, run_meta.get('run', 'x') if run_meta else 'x'))
     os.makedirs(d, exist_ok=True)
     with open(os.path.join(d, 'trace.ndjson'), 'w') as f:
         f.writelines(trace_lines)
